@@ -64,9 +64,14 @@ def rule_B(ck, units):
                 det = 'the solver member is not initialised'
                 for ini in f.inits:
                     if ini.get('m') == 'S' and ini.get('e') is not None:
-                        ips = [x for x in walk(ini['e']) if x['k'] == 'ctor' and 'mpi::inner_product' in u.type(x.get('ct'))]
+                        ips = [x for x in walk(ini['e']) if x['k'] == 'ctor' and 'mpi::inner_product' in u.type(x.get('ct')) and x.get('a')]
                         ok = bool(ips)
                         det = '' if ok else 'the solver is constructed without mpi::inner_product(comm): its reductions are rank-local'
+                        if ok:
+                            # built from the communicator the solver was given (first constructor parameter), not another one
+                            srcs = [y for y in walk(ips[0]['a'][0]) if y['k'] == 'ref']
+                            ok = len(srcs) == 1 and f.param_index(srcs[0]['d']) == 0 and 'communicator' in u.type(f.decl(f.params[0]).get('ct'))
+                            det = '' if ok else 'mpi::inner_product is built from `%s`, not from the communicator of the solver' % show(ips[0]['a'][0])
                 ck.ob('B.mpi-inner-product', key, f.where(), ok, det)
         # instantiated solver types inside mpi::make_solver / runtime::mpi::solver::wrapper
         for r in u.records:
